@@ -1,3 +1,3 @@
-import TTModel.Proto
-/-! C02 driver — stub (not built yet): answers `bad-op` to everything. -/
-def main : IO Unit := TT.Proto.mainLoop fun _ => "bad-op"
+import TTModel.C01_Handle
+/-! C02 driver: the C01 request handler (C02 reuses the C01 model; see `TTModel/C01_Handle.lean`). -/
+def main : IO Unit := TT.Proto.mainLoop TT.C01.Drv.handle
